@@ -445,6 +445,15 @@ func runProxyCase(proxy, iface reflect.Type, method string, data []uint64, sprea
 		}
 	}
 
+	lastProxyCall = lastProxyCall[:0]
+	for _, a := range args {
+		lastProxyCall = append(lastProxyCall, showDeep(a, 0))
+	}
+	lastProxyResults = lastProxyResults[:0]
+	for _, r := range results {
+		lastProxyResults = append(lastProxyResults, showDeep(r, 0))
+	}
+
 	// call through the interface's method table, as compiled code holding an I would
 	iv := reflect.New(iface).Elem()
 	iv.Set(recv)
@@ -509,6 +518,42 @@ func runProxyCase(proxy, iface reflect.Type, method string, data []uint64, sprea
 	return nparams, nil
 }
 
+// arguments and results of the latest runProxyCase, rendered for rec.Sample
+var lastProxyCall, lastProxyResults []string
+
+func showDeep(v reflect.Value, depth int) string {
+	if !v.IsValid() {
+		return "<invalid>"
+	}
+	switch v.Kind() {
+	case reflect.Slice:
+		if v.IsNil() {
+			return fmt.Sprintf("%v(nil)", v.Type())
+		}
+		s := fmt.Sprintf("%v(len=%d cap=%d){", v.Type(), v.Len(), v.Cap())
+		for i := 0; i < v.Len() && i < 3 && depth < 2; i++ {
+			s += showDeep(v.Index(i), depth+1) + ","
+		}
+		return s + "}"
+	case reflect.Ptr, reflect.Map, reflect.Chan, reflect.Func, reflect.UnsafePointer:
+		if v.IsNil() {
+			return fmt.Sprintf("%v(nil)", v.Type())
+		}
+		if v.Kind() == reflect.Ptr && depth < 2 {
+			return "&" + showDeep(v.Elem(), depth+1)
+		}
+		return fmt.Sprintf("%v(non-nil)", v.Type())
+	case reflect.Interface:
+		if v.IsNil() {
+			return fmt.Sprintf("%v(nil)", v.Type())
+		}
+		return fmt.Sprintf("%v(%s)", v.Type(), showDeep(v.Elem(), depth+1))
+	case reflect.Struct:
+		return fmt.Sprintf("%v{...}", v.Type())
+	}
+	return show(v)
+}
+
 func proxyTypes(e *refEntry) (proxy, iface reflect.Type, err error) {
 	if e.Class != clsIface {
 		return nil, nil, fmt.Errorf("key names no interface: %s", e.Detail)
@@ -561,6 +606,10 @@ func TestProxies(t *testing.T) {
 				rec.Label(fmt.Sprintf("proxy-case:params=%d", min(nparams, 4)))
 				if m.Type.IsVariadic() {
 					rec.Label(fmt.Sprintf("proxy-case:variadic-spread=%v", spread))
+				}
+				if nparams >= 1 {
+					rec.Sample(map[string]interface{}{"test": "proxy", "proxy": fmt.Sprint(proxy), "interface": fmt.Sprint(iface), "method": m.Name,
+						"arguments": append([]string{}, lastProxyCall...), "results_returned_by_recorder": append([]string{}, lastProxyResults...), "tape": data})
 				}
 				if nparams >= 2 {
 					rec.NT("proxy:" + e.key() + "\x00" + m.Name + "\x00" + tapeHash(data, spread))
